@@ -112,13 +112,21 @@ def run_case(case, prefix=None):
         n0, t0 = len(med.log), sim.now
         kind = call[0]
         used0 = len(fault.used)
-        if kind in ("read", "listen_cycle", "ctx"):
+        if kind in ("read", "listen_cycle", "ctx", "clear"):
             # what an application does between two transmissions: take a received (ACK) payload out of the RX FIFO, or
             # listen for a while and come back.  Not judged themselves (C10 / C08 do that); the calls that follow are.
             try:
                 if kind == "read":
                     if ptx.available():
                         ptx.read()
+                elif kind == "clear":
+                    # an interrupt-driven application releases the IRQ line after a result: the latched flags go, a
+                    # failed payload stays at the head of the TX FIFO (resend() must still find and retransmit it).  send()
+                    # leaves CE high, and clearing MAX_RT with CE high would restart the transmission by itself (chip
+                    # behaviour), so such an application pulls CE low first - as the documentation's IRQ example does
+                    ptx.ce_pin = False
+                    ptx.clear_status_flags()
+                    ptx.update()
                 elif kind == "ctx" and drv == "lite":
                     pass  # rf24_lite has no context manager (documented reduction)
                 elif kind == "ctx":
@@ -381,7 +389,7 @@ def _enum_interleaved(depth, drv="full", peer="full"):
                         for i, (k, so) in enumerate(hist):
                             base.append(["send", "%02x%02x" % (0x20 + i, 0x66), False, 0, so] if k == "send" else ["resend", so])
                         for pos in range(1, d):
-                            for ins in (["read"], ["listen_cycle"], ["listen_cycle", "load"], ["ctx"]):
+                            for ins in (["read"], ["listen_cycle"], ["listen_cycle", "load"], ["ctx"], ["clear"]):
                                 if (ins[0] == "read" or len(ins) > 1) and mode != "ackpl":
                                     continue
                                 yield {"drv": drv, "peer": peer, "rate": 1, "arc": 0, "ard": 1, "mode": mode, "listening": True,
@@ -407,7 +415,7 @@ def strategy(drv="full", peer="full"):
         "ackpl": st.lists(st.binary(min_size=1, max_size=32).map(bytes.hex), max_size=3),
         "word": st.text(alphabet="DDPA", max_size=64),
         "default": st.sampled_from(["D", "D", "P", "A"]),
-        "calls": st.lists(st.one_of(send, send, send, sendl, sendl, resend, resend, st.just(["read"]), st.just(["listen_cycle"]), st.just(["listen_cycle", "load"]), st.just(["ctx"])), min_size=1, max_size=6),
+        "calls": st.lists(st.one_of(send, send, send, sendl, sendl, resend, resend, st.just(["read"]), st.just(["listen_cycle"]), st.just(["listen_cycle", "load"]), st.just(["ctx"]), st.just(["clear"])), min_size=1, max_size=6),
         "txaddr": st.one_of(st.none(), st.none(), st.fixed_dictionaries({"short": st.binary(min_size=1, max_size=4).map(bytes.hex), "p0": st.binary(min_size=2, max_size=5).map(bytes.hex)})),
         "mcu": st.fixed_dictionaries({"spi": st.sampled_from([8, 20, 100, 400]), "jit": st.sampled_from([0, 30]),
                                       "seed": st.integers(0, 999)}),
